@@ -309,11 +309,79 @@ def runSc (f : List String) (impl : String) : Ans :=
     | _, _ => { model := "bad-op", verdict := "skip" }
   | _ => { model := "bad-op", verdict := "skip" }
 
+/-! ### stream `is`: what a real full handshake issues (ticket / cache entry), then presentation after reconfiguration -/
+
+def runIs (f : List String) (impl : String) : Ans :=
+  if f.length != 21 then { model := "bad-op", verdict := "skip" } else
+  match impl.splitOn " | " with
+  | [helloStr, first, second] =>
+    let cfgF := f.take 13
+    match parseCase (" ".intercalate (["rch"] ++ cfgF ++ [helloStr])), parseHex (f.getD 13 ""), parseHex (f.getD 18 ""), parseHex (f.getD 19 "") with
+    | some c, some cmin, some min2, some max2 =>
+      let client := f.getD 16 "none"
+      let viaTk := f.getD 17 "" == "tk"
+      let cs2 := f.getD 20 "same"
+      let h := c.hello
+      let expected : String × String :=
+        match readClientHello c.cfg c.rule h { ticket := none, cache := none } with
+        | .error _ => ("conn=err", "-")
+        | .ok p =>
+          let kxCurves := if p.ecdheNoExt then h.curves ++ [23] else h.curves
+          let kxPick := (c.cfg.curvePreferences.find? fun x => kxCurves.contains x).getD 0
+          let kxBad := p.suite.has suiteECDHE && !([23, 24, 25] : List Nat).contains kxPick
+          let sendsCert := p.clientAuth ≥ requestClientCert && client == "A"
+          let caBad := (p.clientAuth == requireAnyClientCert || p.clientAuth == requireAndVerifyClientCert) && !sendsCert
+          if kxBad || caBad || p.vers < cmin then ("conn=err", "-")
+          else
+            let n : Nat := if sendsCert then 1 else 0
+            let conn := "conn=" ++ hex4 p.vers ++ ":" ++ hex4 p.suite.id ++ ":" ++ toString n
+            let ticketIssued := h.ticketSupported && !c.cfg.ticketsDisabled
+            let issuedNow := if viaTk then ticketIssued else (!ticketIssued && c.cfg.cacheEnabled)
+            if !issuedNow then (conn ++ " iss=none", "-")
+            else
+              let st := issueState viaTk h.vers p master48 (certsN n)
+              let iss := "iss=" ++ hex4 st.vers ++ ":" ++ hex4 st.suite ++ ":ms1:" ++ toString n ++ ":cm1"
+              let cfg1 := c.cfg
+              let newSuites : Option (List Nat) :=
+                if cs2 == "same" then cfg1.cipherSuitesRaw else if cs2 == "n" then none else parseList parseHex cs2
+              let newPri : List Nat := if cs2 == "same" then cfg1.priority else []
+              let cfg2 : Config := { cfg1 with minVersionRaw := min2, maxVersionRaw := max2, cipherSuitesRaw := newSuites, priority := newPri }
+              let h2 : Hello := { h with alpn := [], npn := false, ticketSupported := viaTk, ticketPresent := viaTk, sessionIdPresent := (!viaTk) }
+              let sess : Session := toSession st
+              let lk : Lookups := if viaTk then { ticket := some sess, cache := none } else { ticket := none, cache := some sess }
+              let sec := match readClientHello cfg2 c.rule h2 lk with
+                | .error a => "alert=" ++ toString (alertCode a)
+                | .ok p2 => "r=" ++ (if p2.resume then "1" else "0") ++ " v=" ++ hex4 p2.vers ++ " s=" ++ hex4 p2.suite.id ++
+                            " ms=" ++ (if p2.resume then "1" else "-")
+              (conn ++ " " ++ iss, sec)
+      -- spec oracle on the implementation's answer
+      let connF := (field first "conn").getD ""
+      let issF := (field first "iss").getD ""
+      let connP := connF.splitOn ":"
+      let issP := issF.splitOn ":"
+      let verdict :=
+        if connF == "err" || issF == "" || issF == "none" then "ok"
+        else if !(issP.getD 0 "" == connP.getD 0 "x" && issP.getD 1 "" == connP.getD 1 "x" && issP.getD 2 "" == "ms1" &&
+                  issP.getD 3 "" == connP.getD 2 "x" && issP.getD 4 "" == "cm1") then "FAIL:issued-state-wrong"
+        else if second.startsWith "r=1" &&
+            !(field second "v" == some (connP.getD 0 "x") && field second "s" == some (connP.getD 1 "x") && field second "ms" == some "1") then
+          "FAIL:resumed-params-changed"
+        else "ok"
+      let hv := h.vers
+      let capped : Bool := match parseHex (connP.getD 0 "") with | some v => decide (v < hv) | none => false
+      { model := helloStr ++ " | " ++ expected.1 ++ " | " ++ expected.2, verdict := verdict,
+        tags := ["is", if viaTk then "is-ticket" else "is-cache"] ++ (if capped then ["is-version-capped"] else []) ++
+                (if expected.2.startsWith "r=1" then ["is-resumed"] else if expected.2.startsWith "r=0" then ["is-full-after-reconf"] else []) ++
+                (if expected.1.startsWith "conn=err" then [] else ["nt"]) }
+    | _, _, _, _ => { model := "bad-hello", verdict := "FAIL:hs-hello-not-captured" }
+  | _ => { model := "bad-result", verdict := "FAIL:unparsable-result" }
+
 def run (op impl : String) : Ans :=
   match op.splitOn " " with
   | ["um", hx] => runUm hx impl
   | "tk" :: f => runTk f impl
   | "res" :: f => runRes f impl
+  | "is" :: f => runIs f impl
   | "rv" :: f => runRv f impl
   | "sc" :: f => runSc f impl
   | _ => { model := "bad-op", verdict := "skip" }
